@@ -18,7 +18,8 @@ P1_RULE = ("histories generated from one SplitMix64 state: commits of 1..6 ops o
 
 HOOK_COMMITS = ["39fa7aa verif hook: expose both index page searches (cfg pdb_verif)",
                 "aa461bc verif hook: route a stepping error through store_err (cfg pdb_verif)",
-                "bafdd9c verif hook: expose last enacted record id and table configuration (cfg pdb_verif)"]
+                "bafdd9c verif hook: expose last enacted record id and table configuration (cfg pdb_verif)",
+                "8676b67 verif hook: read-only value table state / entry access, compress, hash_key (cfg pdb_verif)"]
 NOT_APPLICABLE = {}
 
 PROPS = {
@@ -155,5 +156,27 @@ PROPS = {
                  "transactions and a log file with records"),
         "assumptions": ["A-crc: CRC-32 is a function of the record bytes; accepted records are genuine (no forged checksum-valid records except the empty controls)"],
         "trusted": ["hooks db.rs verif_last_enacted / verif_table_cfg, column.rs verif_table_cfg (cfg pdb_verif)"],
+    },
+    "C06": {
+        "level_text": ("Lean theorems C06_roundtrip / C06_replace_roundtrip / C06_replace_frees / C06_remove_frees / C06_insert_reuses_free / "
+                       "C06_value_roundtrip / C06_size_field_never_a_marker / C06_tier_fits / C06_tier_minimal / C06_compress_kept_only_if_smaller ... "
+                       "(16 theorems) over a byte-level model of one value table (entry formats, free list, multipart chains, overwrite_chain, "
+                       "clear_chain, tier selection): every value of every length written under the slot invariant reads back bit-exact with its "
+                       "compressed flag, the invariant (free list acyclic and in range, chains disjoint, live + free = filled - 1) is preserved, "
+                       "overwrites free exactly the unused old slots, inserts reuse freed slots before extending. Constants (SIZES, markers, masks, "
+                       "sizes) are regenerated from the source on every run. Tied to the code by replaying every table operation of generated "
+                       "histories on the model (addresses, filled, free-list length, chain digests via hooks) and by an independent byte oracle."),
+        "level_note": ("Trusted: Lean kernel; A-compress; the model restructures overwrite_chain into phases (tied by the c06 t correspondence); "
+                       "db_version > 6; claimed entries (multitree) are C10; hooks of fixes/hook-c06.diff."),
+        "lean": ["Pdb.Props.C06"],
+        "harness": [{"cmd": "c06", "quick": 100, "thorough": 300, "max_search": 3000}],
+        "rule": ("one column per case (hash plain / hash rc / btree plain / btree rc; uniform or hashed keys; compression none/lz4/snappy; threshold "
+                 "0/default/max); lengths 0, 1, boundary-1/boundary/boundary+1 of 3 (thorough 15) sampled tiers for the header variant in use, the "
+                 "multipart boundary, part boundaries, threshold +-1, 33 KiB, 1 MiB (2.5 MiB thorough); single-op commits: set / overwrite across "
+                 "tiers and single<->multipart / remove / rc inc-dec, read at every pipeline stage and after reopen; remove-all / re-insert cycles; "
+                 "distinct = SHA-1 of the ops; non-trivial = touches a tier boundary or a multipart chain"),
+        "assumptions": [A_COMPRESS, "WriteOk discharged by C06_tier_writeOk", "slot index < 2^64",
+                        "model restructures overwrite_chain into phases (tied by c06 t correspondence); db_version > 6; claimed=false"],
+        "trusted": ["hooks Db::verif_table_state / verif_table_entry, verif::{compress, hash_key, entry_sizes} (cfg pdb_verif)"],
     },
 }
